@@ -20,7 +20,11 @@ text = "Title: %s\nStatement: %s\nQuantified over: %s" % (prop["title"], prop["s
 prev = []
 for d in sorted(glob.glob("/verif/seeded/%s-*" % pid)):
     first = open(os.path.join(d, "README.md")).readline().strip().lstrip("# ").strip()
-    prev.append(first)
+    try:
+        need = json.load(open(os.path.join(d, "meta.json"))).get("needs_to_manifest")
+    except Exception:
+        need = None
+    prev.append(first + (" [it needs: %s]" % need if need else ""))
 prev += extra
 avoid = "; ".join("(%d) %s" % (i + 1, p) for i, p in enumerate(prev))
 T = """You are working in a scratch git worktree of the open-source Go program github/git-sizer located at @DIR@ (a CLI that scans a local Git repository through git subprocesses and reports size metrics). The sandbox is offline: before any go command run `export GOFLAGS=-mod=mod GOPROXY=off GOSUMDB=off GOTOOLCHAIN=local`. Work ONLY inside @DIR@ (and /tmp for throw-away files, which you remove when done). Do NOT read, list or write anything under /verif or /repo, and do not use git commands that touch other worktrees.
